@@ -172,7 +172,7 @@ def extract(repo, dest):
         shutil.rmtree(tmp, ignore_errors=True)
 
 
-def prune(keep=24, min_age_s=900):
+def prune(keep=300, min_age_s=900):
     """drop old fact sets; never one that was used in the last 15 minutes (another check may be reading it)"""
     d = os.path.join(CACHE, "facts")
     if not os.path.isdir(d):
@@ -182,6 +182,10 @@ def prune(keep=24, min_age_s=900):
     for mt, e in ents[:-keep]:
         if now - mt > min_age_s:
             shutil.rmtree(os.path.join(d, e), ignore_errors=True)
+            try:
+                os.unlink(os.path.join(CACHE, "locks", e))
+            except OSError:
+                pass
 
 
 def facts_dir(repo="/repo"):
@@ -190,7 +194,9 @@ def facts_dir(repo="/repo"):
     os.makedirs(os.path.join(CACHE, "facts"), exist_ok=True)
     key, nfiles = tree_hash(repo)
     dest = os.path.join(CACHE, "facts", key)
-    lockf = open(os.path.join(CACHE, "lock"), "w")
+    # one lock per tree: the same tree is never extracted twice at once, different trees (the self-test's scratch copies) extract in parallel
+    os.makedirs(os.path.join(CACHE, "locks"), exist_ok=True)
+    lockf = open(os.path.join(CACHE, "locks", key), "w")
     fcntl.flock(lockf, fcntl.LOCK_EX)
     try:
         if not os.path.exists(os.path.join(dest, "meta.json")):
